@@ -158,6 +158,50 @@ func inArrows(text string) (arrows [][]string, unknown []string) {
 	return arrows, unknown
 }
 
+var (
+	reEpaApp   = regexp.MustCompile(`^state "(.*)" as (X_\d+)(?: <<\w+>>)? \{$`)
+	reEpaState = regexp.MustCompile(`^state "(.*)" as (_\d+)(?: <<\w+>>)?$`)
+	reEpaArrow = regexp.MustCompile(`^(_\d+) -\[#\w+\]-?> (_\d+)`)
+)
+
+// inArrowsEPA reads an endpoint-analysis diagram: every endpoint state sits in the state of its application; an arrow
+// between states of two applications is reported as an arrow between the applications.
+func inArrowsEPA(text string) (arrows [][]string, unknown []string) {
+	owner := map[string]string{}
+	cur := ""
+	seen := map[string]bool{}
+	for _, raw := range strings.Split(text, "\n") {
+		l := strings.TrimSpace(raw)
+		switch {
+		case reEpaApp.MatchString(l):
+			cur = reEpaApp.FindStringSubmatch(l)[1]
+		case l == "}":
+			cur = ""
+		case reEpaState.MatchString(l):
+			if cur == "" {
+				unknown = append(unknown, l)
+				continue
+			}
+			owner[reEpaState.FindStringSubmatch(l)[2]] = cur
+		case reEpaArrow.MatchString(l):
+			g := reEpaArrow.FindStringSubmatch(l)
+			a, ok1 := owner[g[1]]
+			t, ok2 := owner[g[2]]
+			if !ok1 || !ok2 {
+				unknown = append(unknown, l)
+				continue
+			}
+			if a != t && !seen[a+"\x00"+t] {
+				seen[a+"\x00"+t] = true
+				arrows = append(arrows, []string{a, t})
+			}
+		case strings.Contains(l, "->") || strings.Contains(l, "-[#"):
+			unknown = append(unknown, l)
+		}
+	}
+	return arrows, unknown
+}
+
 type inViewResult struct {
 	deps  [][]string
 	final []string
@@ -305,6 +349,15 @@ func runInts(in, out string, _ []string) error {
 					w.Emit(begin(k))
 				}
 				arrows, unknown := inArrows(vr.text)
+				if sc.View == "epa" {
+					arrows, unknown = inArrowsEPA(vr.text)
+				}
+				if arrows == nil {
+					arrows = [][]string{}
+				}
+				if unknown == nil {
+					unknown = []string{}
+				}
 				ev := tr.Ev{"t": tid(k), "e": "deps", "edges": vr.deps, "final": vr.final, "arrows": arrows, "unknown": unknown,
 					"hastext": vr.text != ""}
 				if sc.Text {
